@@ -63,7 +63,7 @@ func storesToField(fn *ssa.Function, fv *types.Var) []ssa.Instruction {
 }
 
 func checkC20(c *Ctx) {
-	c.Explanation = "Every classification table of the library (the two init-built MSM maps, the MSM4/MSM7/MSM predicates, GetConstellation, the MSM-type acceptance switch of the header reader, the family gates of the MSM4 and MSM7 decoders, the timestamp guard of the single-frame decoder, the dispatch of Analyse, displayable, the MessageType constants and the title table) is extracted from the SSA of the current source by set-wise abstract interpretation over the complete domain {-2,-1,0..4095} (4098 values, every branch condition interpreted as a set operation; an unrecognised condition in a classifier fails the check) and compared with the other tables and with the oracle sets.  Exhaustive over the type domain.  The display entry point skips the analysis only for a message that has been analysed already (T7 guard), so decoding is attempted for every message of the decodable types. (T12) the value that is classified is the leader helper's unsigned 12-bit read at bit 24. T12 also contains the C01-R7 rules: the stream path delivers the single-frame decoder's classification unchanged."
+	c.Explanation = "Every classification table of the library (the two init-built MSM maps, the MSM4/MSM7/MSM predicates, GetConstellation, the MSM-type acceptance switch of the header reader, the family gates of the MSM4 and MSM7 decoders, the timestamp guard of the single-frame decoder, the dispatch of Analyse, displayable, the MessageType constants and the title table) is extracted from the SSA of the current source by set-wise abstract interpretation over the complete domain {-2,-1,0..4095} (4098 values, every branch condition interpreted as a set operation; an unrecognised condition in a classifier fails the check) and compared with the other tables and with the oracle sets.  Exhaustive over the type domain.  The display entry point skips the analysis only for a message that has been analysed already (T7 guard), so decoding is attempted for every message of the decodable types. (T12) the value that is classified is the leader helper's unsigned 12-bit read at bit 24. T12 also contains the C01-R7 rules: the stream path delivers the single-frame decoder's classification unchanged. (T14) the fan-out rule of C09: every consumer receives the decoder's message value itself (type and timestamp included)."
 	c.NotDecided = "that the display and decode functions reached through these tables terminate normally (C07); wording of titles."
 	c.Extra["exhaustive"] = true
 	c.Extra["domain_size"] = tyN
@@ -350,6 +350,11 @@ func checkC20(c *Ctx) {
 	// T13: "accepted by exactly its own decoder family" includes that the family decoder does not refuse
 	// a message of its own types for a reason outside the standard's list: all rules of C04
 	c.Compose(checkC04, "C04", "C20-T13")
+	// T14: what the decoder attached to a message (type, timestamp) is what every consumer of the
+	// pipeline receives: the fan-out sends the received value itself to every channel (rule of C09)
+	if pl := resolvePipeline(c, "C20-T14"); pl != nil {
+		ruleFanout(c, pl, "C20-T14")
+	}
 	c.MinInstances("C20-T8", 19)
 	c.MinInstances("C20-T1", 2)
 	c.MinInstances("C20-T2", 3)
